@@ -8,7 +8,8 @@ UNIT = dict(
   items=[
     ('laythe_vm/src/byte_code.rs', ['struct Label', ('impl Label', ['new', 'val']), 'enum CaptureIndex', 'enum SymbolicByteCode']),
     ('laythe_core/src/object/fun.rs', ['enum FunKind']),
-    ('laythe_vm/src/compiler/ir/ast.rs', ['enum BinaryOp', 'enum UnaryOp']),   # named by the shared compilerd spec
+    ('laythe_vm/src/compiler/ir/ast.rs', ['enum BinaryOp', 'enum UnaryOp']),
+    ('laythe_vm/src/compiler/ir/symbol_table.rs', ['enum SymbolState']),   # named by the shared compilerd spec
     ('laythe_vm/src/compiler/mod.rs', ['struct TryAttributes', 'struct LoopAttributes', ("impl<'a, 'src: 'a> Compiler<'a, 'src>", ['catch'])]),
   ],
   rewrites=[
@@ -19,6 +20,8 @@ UNIT = dict(
     ('R11', 'enum SymbolicByteCode', dict(pat='  #[default]\n', rep='', count=1)),
     ('R11', 'enum SymbolicByteCode', dict(pat='  #[allow(dead_code)]\n', rep='', count=1)),
     ('R11', 'enum FunKind', dict(drop=['Debug'], add=['Structural'])),
+    ('R11', 'enum SymbolState', dict(drop=['Debug', 'Default'], add=['Structural'])),
+    ('R11', 'enum SymbolState', dict(pat='  #[default]\n', rep='', count=1)),
     ('R11', 'struct TryAttributes', dict(drop=['Debug'])), ('R11', 'struct LoopAttributes', dict(drop=['Debug'])),
     ('R5', 'kind:implhdr', dict(pat=r"impl<'a, 'src: 'a> Compiler<'a, 'src> \{", rep='impl Compiler {', regex=True, optional=True)),
     ('R5', 'Compiler::*', dict(pat=r"&'a ast::(\w+)<'src>", rep=r'&\1', regex=True, optional=True)),
